@@ -319,7 +319,7 @@ def run(ck):
   # self-contained family with its own PRNG, run FIRST: a wrapper the text parsers below cannot read stops the main stream, the
   # direct oracle of this family must still get its chance to find the concrete failing design (ck.rng is left untouched)
   _st = rng.getstate(); c11_openloop.run_hostosc(ck); rng.setstate(_st)
-  n = 250 if ck.tier == 'quick' else 8000
+  n = 250 if ck.tier == 'quick' else 3500
   lines, meta = [], []
   wrappers = c11_openloop.WrapperChecks(ck)
   for _ in range(n):
